@@ -296,6 +296,58 @@ def run_case(case, rec):
             return
         invariant(g, type(g), names, types, label + ' (decoded)', rec, case)
         rec.count('roundtrip_checked')
+    if st in ('valid', 'roundtrip') or rec.evaluations % 4 == 0:
+        # the other trips a frame object makes: copy, deepcopy, pickle with
+        # every protocol (what multiprocessing / a task queue does).  Where
+        # the trip succeeds, the copy is a frame like any other: the mapping
+        # views agree with the name list and report the same values
+        import copy
+        import pickle
+        src = obj
+        if st in ('sentinel', 'mixed'):
+            src = None
+        trips = [('copy', copy.copy), ('deepcopy', copy.deepcopy)] + \
+            [('pickle-%d' % p, lambda o, p=p: pickle.loads(
+                pickle.dumps(o, p))) for p in range(0, 6)]
+        for tname, fn in (trips if src is not None else ()):
+            t_ = call(fn, src)
+            if not t_.ok:
+                rec.count('trip_unavailable:' + tname)
+                continue
+            g2 = t_.value
+            if type(g2) is not type(src):
+                rec.violation('copy-changes-class', '%s of a %s is a %s'
+                              % (tname, label, type(g2).__name__), case)
+                return
+            if not invariant(g2, type(g2), names, types,
+                             '%s (%s)' % (label, tname), rec, case):
+                return
+            want = [(n, getattr(src, n, boundary.Missing)) for n in names]
+            have = [(n, getattr(g2, n, boundary.Missing)) for n in names]
+            if canon.text(want) != canon.text(have):
+                rec.violation('copy-changes-values', '%s of a %s holds %s, '
+                              'the original %s' % (tname, label,
+                                                   canon.text(have)[:200],
+                                                   canon.text(want)[:200]),
+                              case)
+                return
+            rec.count('trips_checked:' + tname)
+    # a frame built with every argument None (what a caller does before
+    # filling it in) makes the same trips
+    if st == 'defaults' or rec.evaluations % 16 == 0:
+        import copy
+        import pickle
+        cn = call(cls, **{n: None for n in names}) if names else None
+        if cn is not None and cn.ok:
+            for p_ in range(0, 6):
+                t_ = call(lambda o: pickle.loads(pickle.dumps(o, p_)),
+                          cn.value)
+                if t_.ok:
+                    if not invariant(t_.value, type(t_.value), names, types,
+                                     '%s (all None, pickle-%d)' % (label, p_),
+                                     rec, case):
+                        return
+                    rec.count('trips_checked:all-none')
     if rec.evaluations % 307 == 0 and names:
         rec.sample({'class': label, 'state': st, 'dict': dict(obj)
                     if st != 'sentinel' else repr(dict(obj))[:200]})
